@@ -104,7 +104,7 @@ func (a ConstFloat32) GetN() int {
 /* json
  * -------------------------------------------------------------------------- */
 func (obj ConstFloat32) MarshalJSON() ([]byte, error) {
-  return json.Marshal(obj)
+  return json.Marshal(float32(obj))
 }
 /* math
  * -------------------------------------------------------------------------- */
